@@ -148,6 +148,15 @@ static std::vector<Cell> specials(const lg::Pair &p, const lg::Field &f, Rng &r)
       auto addT = [&](const std::string &s, const char *cls) { Cell x; x.code = 0; x.v.s = s; x.cls = cls; out.push_back(x); };
       addT("", "empty"); addT("A", "one"); addT(randText(r, n), "full"); addT(randText(r, n + 3), "long");
       addT(randText(r, 1 + (int)r.below(n)), "rand");
+      if (f.textKind == 4) {
+        // variable strings that may carry UCS-2: UTF-8 text with 2-byte sequences over the WHOLE range U+0080..U+07FF (lead
+        // bytes C2..DF, e.g. Cyrillic U+0400.., NKo U+07C0..) and 3-byte sequences, alone and mixed with ASCII; short, so
+        // that neither the field width nor a caller's buffer cuts a character
+        static const char *uni[] = {"\xc3\xa9", "\xd0\x96", "\xdf\xba", "\xd0\x80", "\xcf\xbf", "\xe2\x82\xac", "A\xd0\x96" "B", "\xd1\x8f\xd0\xb6", "X\xe2\x82\xac\xdf\xbf"};
+        for (const char *u : uni) addT(u, "unicode");
+        std::string m; for (int k = 0; k < 3; k++) { unsigned cp = 0x80 + (unsigned)r.below(0x780); m += (char)(0xC0 | (cp >> 6)); m += (char)(0x80 | (cp & 0x3F)); }
+        addT(m, "unicode");
+      }
       break; }
   }
   return out;
@@ -265,6 +274,7 @@ static const char *classOf(const lg::Pair &p, const lg::Field &f, const Cell &c)
       return "rand"; }
     case lg::K_TEXT: {
       int n = textWidth(f); size_t l = c.v.s.size();
+      for (unsigned char ch : c.v.s) if (ch >= 0x80) return "unicode";
       return l == 0 ? "empty" : l == 1 ? "one" : (int)l == n ? "full" : (int)l > n ? "long" : "rand"; }
   }
   return "rand";
@@ -444,6 +454,8 @@ static void execParse(const lg::Pair &p, const std::vector<std::string> &w, cons
     } else if (f.kind == lg::K_TEXT) {
       std::string want = in.v.s;
       if (f.textLen > 0 && (int)want.size() > f.textLen) want.resize(f.textLen);
+      bool nonAscii = false; for (unsigned char ch : want) if (ch >= 0x80) nonAscii = true;
+      if (nonAscii && capsGiven) continue;       // (a small buffer may cut inside a multi-byte character: judged with large buffers only)
       if (f.sizedBuf) {
         // each string against ITS OWN buffer size: cut to size-1 characters and terminated; nothing behind the buffer
         // may be written; a buffer of size 0 is not touched at all
